@@ -30,8 +30,8 @@ Theorem step_exact e s o :
   uniq_keys (links s) -> classify e s o = None -> step e s o = spec_step e s o.
 Proof.
   intros Hu Hc. destruct o as [ro si mb q item new|ro si mb q item new|mb q dest|mb q dest|mb fl|ro mb]; simpl in *.
-  - destruct ro; [reflexivity|]. now rewrite store_seq_exact.
-  - destruct ro; [reflexivity|]. now rewrite store_uid_exact.
+  - destruct (ro || negb (flags_valid new)); [reflexivity|]. now rewrite store_seq_exact.
+  - destruct (ro || negb (flags_valid new)); [reflexivity|]. now rewrite store_uid_exact.
   - reflexivity.
   - reflexivity.
   - reflexivity.
@@ -116,13 +116,14 @@ Qed.
 Theorem uniq_step e s o : uniq_keys (links s) -> uniq_keys (links (step e s o)).
 Proof.
   intros Hu. destruct o as [ro si mb q item new|ro si mb q item new|mb q dest|mb q dest|mb fl|ro mb]; simpl.
-  - destruct ro; [assumption|]. unfold store_seq. apply uniq_fold; [|assumption]. intros; now apply uniq_store_uid_one.
-  - destruct ro; [assumption|]. unfold store_uid. apply uniq_fold; [|assumption]. intros; now apply uniq_store_uid_one.
+  - destruct (ro || negb (flags_valid new)); [assumption|]. unfold store_seq. apply uniq_fold; [|assumption]. intros; now apply uniq_store_uid_one.
+  - destruct (ro || negb (flags_valid new)); [assumption|]. unfold store_uid. apply uniq_fold; [|assumption]. intros; now apply uniq_store_uid_one.
   - unfold copy_uid. destruct (expand_uid (links s) mb q) as [|u0 us]; [assumption|].
     apply uniq_copy_finish; [assumption|]. intros ls nu E. eapply uniq_copy_loop; eauto.
   - unfold copy_seq. destruct (expand_seq (links s) mb q) as [|u0 us]; [assumption|].
     apply uniq_copy_finish; [assumption|]. intros ls nu E. eapply uniq_copy_seq_loop; eauto.
-  - unfold append. destruct (insert _ _) eqn:E; simpl; [eapply uniq_insert; eauto | assumption].
+  - destruct (flags_valid fl); [|assumption].
+    unfold append. destruct (insert _ _) eqn:E; simpl; [eapply uniq_insert; eauto | assumption].
   - destruct ro; [assumption|]. simpl. unfold expunge. now apply uniq_filter.
 Qed.
 
